@@ -91,7 +91,15 @@ def budget_case(case) -> List[Tuple[str, str]]:
             s.base_cfg = over
         # scripted clock: constant, or a jump at the first boundary check
         inp = {"sched": True, "cfg_extra": over}
-        o = s.run(inp)
+        import clematis.engine.orchestrator as orch_
+        from clematis.engine.stages.t2 import t2_semantic as real_t2
+        seen_t2: Dict[str, Any] = {}
+
+        def t2_spy(ctx_, state_, text_, t1_):
+            r_ = real_t2(ctx_, state_, text_, t1_)
+            seen_t2["res"] = r_
+            return r_
+        o = s.run(inp, extra_patches=lambda i_: [E.patched_attr(orch_, t2_semantic=t2_spy)])
         fails: List[Tuple[str, str]] = []
         if o["raised"]:
             return [("BudgetsClamp", f"{case}: run_turn raised {o['raised']}")]
@@ -105,6 +113,21 @@ def budget_case(case) -> List[Tuple[str, str]]:
             fails.append(("BudgetsClamp", f"t1 iters (layers) {t1.get('iters')} > slice budget {b['t1_iters']}"))
         if "t2.jsonl" in recs and b.get("t2_k") is not None and int(recs["t2.jsonl"][0].get("k_used", 0)) > b["t2_k"]:
             fails.append(("BudgetsClamp", f"t2 k_used {recs['t2.jsonl'][0].get('k_used')} > slice budget {b['t2_k']}"))
+        # the hits-used budget also binds what T2 hands on: residual graph nudges come from the used hits only
+        t2r = seen_t2.get("res")
+        if t2r is not None and b.get("t2_k") is not None:
+            used = list(t2r.retrieved or [])[:int(b["t2_k"])]
+            used_text = " ".join((getattr(h_, "text", "") or "").lower() for h_ in used)
+            labels = {}
+            for gid in s.state.get("active_graphs", []):
+                for n_ in s.state["store"].get_graph(gid).nodes.values():
+                    labels[n_.id] = (n_.label or "").lower()
+            for d_ in (t2r.graph_deltas_residual or []):
+                nid = d_.get("id")
+                if nid in labels and labels[nid] and labels[nid] not in used_text:
+                    fails.append(("BudgetsClamp", f"T2 nudges node {nid} (label {labels[nid]!r}) although the label occurs in none of the {len(used)} hits "
+                                                  f"the slice budget t2_k={b['t2_k']} allows to be used ({[str(h_.id) for h_ in t2r.retrieved]} retrieved)"))
+                    break
         if "t3_plan.jsonl" in recs and b.get("t3_ops") is not None:
             nops = sum(int(v) for v in (recs["t3_plan.jsonl"][0].get("ops_counts") or {}).values())
             if nops > b["t3_ops"]:
